@@ -18,7 +18,7 @@ PROP = dict(
                        "config_item:nested-set": 5000, "identifier:array_set": 20000}),
           dict(name="c05_cxx", memcheck=500, src=["c05_cxx.cpp"], libs=["mpt++", "mptio", "mptplot", "mptcore"], batch=512, lsan=True,
                floors={"typed_array_insert": 5000, "typed_array_resize": 5000, "typed_array_trim": 3000, "typed_array_skip": 3000,
-                       "unique_array_insert": 2000, "refarray_insert": 5000, "refarray_compact": 5000, "state:compact-with-hole-before-reference": 1000, "monitor:refarray-checks": 50000,
+                       "unique_array_insert": 2000, "refarray_insert": 5000, "itemarray_append": 20000, "itemarray_compact": 5000, "state:compact-moves-item-over-hole": 500, "monitor:itemarray-checks": 100000, "refarray_compact": 5000, "state:compact-with-hole-before-reference": 1000, "monitor:refarray-checks": 50000,
                        "monitor:destructor-calls": 50000, "state:shared": 5000})],
     rule=("case = one PRNG history of 8..60 (quick) / 8..100 (thorough) typed-buffer operations over 3 handles (a third of the histories with "
           "injected constructor failures), or one history on an array of metatype references, one on an array of arrays, one on an array of config items or identifiers; "
